@@ -207,6 +207,10 @@ PROPS["C06"]["level_text"] += (" M2 with its trace: every async goroutine perfor
     "publish context; a state from which no goroutine can step is quiescent with everything delivered; under a strict rank every schedule is finite (explicit bound) and can be continued to a quiescent end: Wait returns after finitely many steps whatever the scheduler does.")
 PROPS["C07"]["level_text"] += " Async(+Sequential) deliveries: exactly once per dispatched event (trace theorem); no invocation starves (progress theorem under the rank hypothesis)."
 
+# C07: the wake-up discipline of the ticket lock (M2t) under real concurrency
+PROPS["C07"]["parts"].append(dict(name="stress07seqburst", domain="stress", domain_module="stress", gen=stress.make_gen("seqburst"), n_quick=8, n_thorough=40, chunk=1, jobs=8, timeout=900))
+PROPS["C07"]["level_text"] = PROPS["C07"].get("level_text", "") + " + stress/seqburst (bursts of back-to-back publishes to a fast Async+Sequential handler: the goroutines reach the ticket lock while the turn is being handed on; no wake-up may be lost)."
+
 # C08 under concurrency: the wait for a Sequential handler's mutex (history of the defect repaired by fix 1feea95)
 PROPS["C08"]["parts"].append(dict(name="stress08seqcancel", domain="stress", domain_module="stress", gen=stress.make_gen("seqcancel"), n_quick=4, n_thorough=40, chunk=2, jobs=4, timeout=900))
 PROPS["C08"]["level_text"] = PROPS["C08"].get("level_text", "") + (" Under concurrency (M2): every step that enters a synchronous handler is taken by a goroutine whose publish context is live, "
